@@ -74,6 +74,9 @@ struct CStr
 
 struct OutOfDomain {};
 
+// index of the running step, shared with the parent process (set by main)
+extern volatile int* g_step;
+
 template<size_t L> struct Obj
 {
    using FS = celma::common::FixedString<L>;
@@ -147,6 +150,7 @@ template<size_t L> std::string run(const std::vector<std::string>& w)
       std::vector<std::string> a;
       { std::string cur; for (char c : w[wi]) { if (c == ':') { a.push_back(cur); cur.clear(); } else cur += c; } a.push_back(cur); }
       const std::string& n = a[0];
+      if (g_step) *g_step = static_cast<int>(wi - 5);
       FS& f = *F.p;
       FS& o = *O.p;
       std::string s, os;          // std::string mirrors (mode D)
